@@ -1,3 +1,4 @@
+pub mod concurrent;
 pub mod difficulty;
 pub mod filtersync;
 pub mod hostile;
@@ -17,6 +18,7 @@ pub fn run(driver: &str, kv: &HashMap<String, String>) -> i32 {
         "difficulty" => difficulty::run(kv),
         "query" => query::run(kv),
         "txpool" => txpool::run(kv),
+        "concurrent" => concurrent::run(kv),
         "mine-genesis" => mine_genesis(),
         "selftest-forged" => selftest_forged(),
         _ => {
